@@ -212,7 +212,7 @@ def fold(e, env):
 
 # ------------------------------------------------------------------ def-use
 def last_def_before(fn, name, lineno):
-    """Last assignment statement to `name` (Assign/AugAssign/For target) that textually precedes `lineno` in fn, or None
+    """Last assignment statement to `name` (Assign/AugAssign/For target) that precedes position `lineno` (a node._ord) in fn, or None
     (= the parameter's value).  Adequate for the straight-line preprocessing code it is applied to."""
     best = None
     for n in ast.walk(fn):
@@ -223,7 +223,7 @@ def last_def_before(fn, name, lineno):
         elif isinstance(n, ast.AugAssign):
             tgts = [n.target]
         for t in tgts:
-            if isinstance(t, ast.Name) and t.id == name and n.lineno < lineno and (best is None or n.lineno > best.lineno):
+            if isinstance(t, ast.Name) and t.id == name and n._ord < lineno and (best is None or n._ord > best._ord):
                 best = n
     return best
 
@@ -327,3 +327,136 @@ def flag_definitions(fn):
                 if stores == 2 and a[nm] != b[nm]:
                     out[nm] = n.test if a[nm] else ast.UnaryOp(ast.Not(), n.test)
     return out
+
+
+def divides_by(node, var, divisor_name):
+    """`var = var / <expr mentioning divisor_name>` or `var /= <...>` (the in-place spelling is an aliasing matter, decided by C20)."""
+    if isinstance(node, ast.Assign) and len(node.targets) == 1 and ast.unparse(node.targets[0]) == var and isinstance(node.value, ast.BinOp) \
+            and isinstance(node.value.op, ast.Div) and ast.unparse(node.value.left) == var:
+        return any(isinstance(n, ast.Name) and n.id == divisor_name for n in ast.walk(node.value.right))
+    if isinstance(node, ast.AugAssign) and isinstance(node.op, ast.Div) and ast.unparse(node.target) == var:
+        return any(isinstance(n, ast.Name) and n.id == divisor_name for n in ast.walk(node.value))
+    return False
+
+
+class UnrollError(Exception):
+    pass
+
+
+def _int(e, env):
+    try:
+        v = fold(e, env)
+    except FoldError as ex:
+        raise UnrollError("bound is not a constant under %s: %s" % (env, ex))
+    if isinstance(v, float) and v == int(v):
+        v = int(v)
+    if not isinstance(v, int):
+        raise UnrollError("bound is not an integer: %s" % ast.unparse(e))
+    return v
+
+
+def seq_elements(e, lens, env):
+    """Element expressions of a sequence expression of statically known length: NAME (length from `lens`) or NAME[a:b] with constant
+    bounds.  Elements are `NAME[k]` with concrete non-negative k."""
+    if isinstance(e, ast.Name) and e.id in lens:
+        return [ast.Subscript(ast.Name(e.id, ast.Load()), ast.Constant(k), ast.Load()) for k in range(lens[e.id])]
+    if isinstance(e, ast.Subscript) and isinstance(e.value, ast.Name) and e.value.id in lens and isinstance(e.slice, ast.Slice) and e.slice.step is None:
+        n = lens[e.value.id]
+        lo = 0 if e.slice.lower is None else _int(e.slice.lower, env)
+        hi = n if e.slice.upper is None else _int(e.slice.upper, env)
+        idx = list(range(n))[lo:hi]
+        return [ast.Subscript(ast.Name(e.value.id, ast.Load()), ast.Constant(k), ast.Load()) for k in idx]
+    raise UnrollError("not a sequence of known length: %s" % ast.unparse(e))
+
+
+def unroll_for(loop, lens, env=None):
+    """Per-iteration bindings {loop variable: expression node} of `for <target> in <iter>` for range / enumerate / zip / plain sequences
+    whose lengths are known (lens: {name: length}; env: integer values of names used in bounds).  Static unrolling: nothing is executed."""
+    env = env or {}
+    it = loop.iter
+
+    def items(e):
+        if isinstance(e, ast.Call) and isinstance(e.func, ast.Name):
+            if e.func.id == "range" and not e.keywords and 1 <= len(e.args) <= 3:
+                a = [_int(x, env) for x in e.args]
+                return [ast.Constant(k) for k in range(*a)]
+            if e.func.id == "enumerate" and len(e.args) == 1 and not e.keywords:
+                return [ast.Tuple([ast.Constant(k), x], ast.Load()) for k, x in enumerate(items(e.args[0]))]
+            if e.func.id == "zip" and e.args and not e.keywords:
+                cols = [items(a) for a in e.args]
+                return [ast.Tuple(list(row), ast.Load()) for row in zip(*cols)]
+        return seq_elements(e, lens, env)
+
+    out = []
+    for item in items(it):
+        b = {}
+
+        def bind(t, v):
+            if isinstance(t, ast.Name):
+                b[t.id] = v
+            elif isinstance(t, (ast.Tuple, ast.List)) and isinstance(v, ast.Tuple) and len(t.elts) == len(v.elts):
+                for tt, vv in zip(t.elts, v.elts):
+                    bind(tt, vv)
+            else:
+                raise UnrollError("cannot bind loop target %s" % ast.unparse(t))
+
+        bind(loop.target, item)
+        out.append(b)
+    return out
+
+
+def subst_fold(node, binding, lens=None):
+    """Substitute loop variables by their per-iteration expressions and fold constant index arithmetic (x[1 + 1] -> x[2], x[-1] -> x[n-1])."""
+    import copy as _copy
+
+    lens = lens or {}
+
+    class T(ast.NodeTransformer):
+        def visit_Name(self, nd):
+            if nd.id in binding and isinstance(nd.ctx, ast.Load):
+                return _copy.deepcopy(binding[nd.id])
+            return nd
+
+        def visit_Subscript(self, nd):
+            self.generic_visit(nd)
+            if not isinstance(nd.slice, (ast.Slice, ast.Tuple)):
+                try:
+                    idx = fold(nd.slice, {})
+                except FoldError:
+                    return nd
+                if isinstance(idx, float) and idx == int(idx):
+                    idx = int(idx)
+                if isinstance(idx, int):
+                    if idx < 0 and isinstance(nd.value, ast.Name) and nd.value.id in lens:
+                        idx += lens[nd.value.id]
+                    nd.slice = ast.Constant(idx)
+            return nd
+
+    return ast.fix_missing_locations(T().visit(_copy.deepcopy(node)))
+
+
+def exclusive(fn, a, b):
+    """Are nodes a and b in different arms of one if statement (so that no single pass through the code runs both)?"""
+    def arms_of(x):
+        out = {}
+
+        def rec(node):
+            if node is x:
+                return True
+            if isinstance(node, ast.If):
+                for arm in ("body", "orelse"):
+                    for st in getattr(node, arm):
+                        if rec(st):
+                            out[id(node)] = arm
+                            return True
+                return any(rec(c) for c in ast.walk(node.test)) and False
+            for c in ast.iter_child_nodes(node):
+                if rec(c):
+                    return True
+            return False
+
+        rec(fn)
+        return out
+
+    da, db = arms_of(a), arms_of(b)
+    return any(k in db and db[k] != v for k, v in da.items())
